@@ -13,6 +13,12 @@ template class std::basic_stringbuf<char>;
 template class std::basic_istringstream<char>;
 template class std::basic_ostringstream<char>;
 template std::istream& std::getline(std::istream&, std::string&, char);
+template std::istream& std::operator>>(std::istream&, char&);
+template std::ostream& std::operator<<(std::ostream&, char);
+template std::ostream& std::operator<<(std::ostream&, const char*);
+template std::istream& std::ws(std::istream&);
+template std::ostream& std::endl(std::ostream&);
+template std::ostream& std::flush(std::ostream&);
 template std::ostream& std::__ostream_insert(std::ostream&, const char*, std::streamsize);
 template std::istream& std::istream::_M_extract(double&);
 template std::istream& std::istream::_M_extract(long&);
